@@ -142,6 +142,12 @@ func (s *Sim) Scenario() *ScenarioOut {
 			el := []string{`{"minValidatorStake":"3000000000000000000"}`, `{"minValidatorStake":"20000000000000000000"}`, `{"maxValidatorCnt":"1"}`, `{"maxValidatorCnt":"2"}`, `{"minValidatorStake":"6000000000000000000"}`}
 			opts[0] = []byte(el[r.Intn(len(el))])
 		}
+		if r.Chance(15) {
+			// options that are valid JSON as submitted but whose text the apply-time hot-fix (`""}` -> `"}`) rewrites:
+			// whatever the validation admits must still parse when the proposal is applied
+			hot := []string{`{"gasPrice":""}`, `{"minTrxGas":"20","gasPrice":""}`, `{"gasPrice":"20" ,"minTrxGas":""}`}
+			opts[0] = []byte(hot[r.Intn(len(hot))])
+		}
 		optType := int32(257)
 		if !forced && r.Chance(30) {
 			optType = 512
